@@ -3,8 +3,8 @@ SPEC = {
     "coq_props": ["Properties/C20.v", "Corr/C20.v"],
     "module": "MS.Properties.C20",
     "theorems": ["C20_select", "C20_insert", "C20_insert_lookup", "C20_insert_rows", "C20_slot_on_grid", "C20_refuted_select",
-                 "C20_refuted_insert", "C20_refuted_limit_zero", "C20_refuted_alias_collision", "C20_refuted_alias_twice",
-                 "C20_refuted_insert_reordered", "C20_nonvacuous"],
+                 "C20_refuted_limit_zero", "C20_refuted_alias_collision", "C20_refuted_alias_twice",
+                 "C20_insert_reordered_list", "C20_nonvacuous"],
     "corr_require": "Require Import MS.Corr.C20.",
     "agrees": "C20.agrees",
     "in_domain": "C20.in_domain",
@@ -38,8 +38,8 @@ SPEC = {
                   "returned series shows exactly the named columns, renamed, in list order, over the first n filtered rows), C20_insert "
                   "(INSERT INTO leaves the target as the by-name last-writer-wins insertion of the relational result) and "
                   "C20_insert_lookup (sorted slot map; slot = last selected row truncated to the target's timeframe). The unguarded "
-                  "statements are refuted (C20_refuted_select, C20_refuted_insert) with computed witnesses for three defect classes, each "
-                  "replayed on the real code. Differential in-Coq evaluation against the real SQL pipeline on every run.",
+                  "SELECT statement is refuted (C20_refuted_select) with computed witnesses for two defect classes, each replayed on the "
+                  "real code; a third class (INSERT column list in another order) was fixed in /repo (0d39b4d) and is now covered by C20_insert. Differential in-Coq evaluation against the real SQL pipeline on every run.",
     "level_note": "Axioms: inherited from C19 (classical reals via Flocq). Modelled not verified: selectrelation.go Materialize (projection/"
                   "LIMIT), utils/io/columnseries.go Project/Rename/Remove/RestrictLength, insertintostatement.go Materialize, the effect of "
                   "executor.WriteCSM on a fixed-length bucket. Not covered: functions in the select list, sub-queries, variable-length "
